@@ -398,10 +398,7 @@ func (e *explorer) expand(n *node, cn counts, forceCopyCheck bool, child func(c 
 		if res.rej != rejNone {
 			cn[rejKeys[res.rej]]++
 		} else if res.grey {
-			cn["grey_zone_change_sets"]++
-			if !res.accepted {
-				cn["grey_zone_rejected"]++
-			}
+			cn["valid_sets_within_cap_only_after_removals"]++
 		}
 		emit(opRec{Kind: "upd", Changes: cs}, res, fs)
 	})
@@ -730,13 +727,13 @@ func main() {
 		"which includes remove-all and total-above-cap sets; plus every individually invalid entry {power -1 on each address, -cap, cap+1, removal of an unknown address} and every duplicate-address pair {(5,5),(5,1000),(5,remove),(remove,remove)} next to every choice of <= k-1 resp. k-2 partner entries {power 5, remove} on the other addresses; "+
 		"EVERY distinct permutation of every change set is executed on its own copy. Stages: A = k<=2, all histories of depth 3; B = k<=3, depth 2; C = k<=3, depth 3; D = k<=3, depth 4 (quick runs A only; thorough runs A,B then C,D until the deadline). "+
 		"States are de-duplicated on (ordered (address,power,priority) list, proposer); states = distinct states reached (frontier states by 64-bit hash); transitions = operations executed on real objects. "+
-		"Phase 'wide change sets' (every tier, before the stages): from roots [1], [1,2], [cap/2], [cap/4+1,1] over a 24-address pool, change sets of EVERY size n = 1..17 for P in {cap, cap-1, cap/2+1, cap/4+1, cap/8+1, cap/16+1, 1}: n adds of P; raise every member to P plus adds; remove one member, raise the rest, plus adds; adds with powers cycling (P,1,cap/4+1); n-1 adds of P plus a last add that makes the total exactly cap resp. cap+1 - so the requested totals fall in every class <=cap, (cap,2^62), [2^62,2^63), [2^63,2^64), >=2^64; each executed in its given order, rotated by 1, rotated by n/2 and reversed, accepted results probed and advanced one round. "+
+		"Phase 'wide change sets' (every tier, before the stages): from roots [1], [1,2], [cap/2], [cap/4+1,1] over a 24-address pool, change sets of EVERY size n = 1..17 for P in {cap, cap-1, cap/2+1, cap/4+1, cap/8+1, cap/16+1, 1}: n adds of P; raise every member to P plus adds; remove one member, raise the rest, plus adds; adds with powers cycling (P,1,cap/4+1); n-1 adds of P plus a last add that makes the total exactly cap resp. cap+1 - so the requested totals fall in every class <=cap, (cap,2^62), [2^62,2^63), [2^63,2^64), >=2^64; each executed in its given order, rotated by 1, rotated by n/2 and reversed, accepted results probed and advanced one round; plus near-cap replacement sets: on roots [cap/2,cap/2], [cap/2+1,cap/2], [cap/2+1,cap/2-1], [cap-10,10], [cap-1,1], [cap-11,10], [cap/2,cap/4,cap/4], [cap/2,cap/4+1,cap/4+1] EVERY removal (one member, or two of three) in ONE change set with every gain entry {a newcomer, or a raise of each remaining member} whose power takes the resulting total to cap-5, cap-1, cap, cap+1, equals the removed power, or is one of {1,10,cap/2,cap/2+1,cap-10,cap-5,cap-1,cap}, and the three-entry form remove + add half + raise by the other half (+1), in both / rotated entry orders, accepted iff the resulting total <= cap. "+
 		"Stage 'history through the executor' (every tier): the real cstate.BlockExecutor.ApplyBlock (genesis state from MakeGenesisState, real store on memorydb, valid blocks with commits signed by every validator of the previous height, stub application returning the FULL validator list per height) over EVERY history of 3 (thorough 4) consecutive blocks whose reports are drawn from 14 tokens relative to the application's current list {same; re-power X; revert X; re-power H(eavy); revert H; remove Y; re-add Y same/other power; add newcomer N; remove N; report permuted; empty report; remove H; X reported with negative power} on 2 base sets (3 equal validators; 4 validators 10/20/30/1000); after every block Validators, NextValidators, LastValidators (members, powers, priorities, order, proposer) and LastHeightValidatorsChanged are compared with the reference applied to the same history (change set = reported list minus NextValidators, in force two heights later, one round per height), a history the reference accepts must be accepted and one it rejects must be rejected with the state unchanged, and from every final NextValidators the proposer sequence of min(2*total, 300; thorough 2*total) rounds is compared with the reference. "+
 		"From every state of depth < max the per-state oracles run: cached total, RescalePriorities(2*total) against the reference, and (total <= 2000) the proposer sequence of 2*total further rounds against the reference.")
 	r.Assume(
 		"the specification is DESIGN.md appendix A.4 (Tendermint proposer-priority rules) transcribed in math/big by the checker (ref.go)",
 		"each step is judged from the state the real object is in: impl(s,op) = spec(s,op); a divergence is therefore reported once per step class and not propagated",
-		"cap rule, weakest reading: A.4 rejects when the total after updates and BEFORE removals exceeds the cap; the property statement says 'totals above the cap'. The checker requires rejection when the total of the RESULTING set exceeds the cap and accepts either answer in between (counted as grey_zone_change_sets); the code, like upstream, accepts there",
+		"cap rule: removals are applied before the cap check - a change set is rejected iff the total of the RESULTING set exceeds the cap; sets whose total before removals is above the cap while the resulting total is not (valid_sets_within_cap_only_after_removals, nearcap_*) must be accepted and equal the reference (newcomers start at -1.125 x the before-removals total)",
 		"the proposer is compared after IncrementProposerPriority and NewValidatorSet only: the specification defines no proposer after an update (UpdateWithChangeSet leaves the Proposer field stale; production always increments next)",
 		"the empty change set is not offered (the code returns nil without re-centring; production never passes it)",
 		"the all-zero address is not in the address pool (see FINDINGS.md O1)",
@@ -749,7 +746,7 @@ func main() {
 		"accepted_set:1", "accepted_set:5", "accepted_set:1000", "accepted_set:capfill", "accepted_remove",
 		"token_add:negative", "token_set:negative", "token_remove-unknown", "token_set:above-cap", "token_add:above-cap",
 		"rejected_" + rejDuplicate, "rejected_" + rejNegative, "rejected_" + rejRemoveUnknown, "rejected_" + rejEmpty, "rejected_" + rejCap,
-		"change_set_permutations", "steps_where_reference_rescaled", "copy_vs_replay_validations", "sequence_rounds"}
+		"change_set_permutations", "valid_sets_within_cap_only_after_removals", "steps_where_reference_rescaled", "copy_vs_replay_validations", "sequence_rounds"}
 	for _, k := range need {
 		r.Require(r.Get(k) > 0, "alphabet token / oracle never exercised: "+k)
 	}
